@@ -583,3 +583,109 @@ Proof.
   cbn [map] in *. inversion NM as [[Q1 Q2]]. inversion CF as [|? ? ? ? [[G1 _] [G2 _]] CFt]; subst.
   constructor; [|apply IH; assumption]. cbn [new_spec fst snd] in *. rewrite <- Q1, <- Q2. split; assumption.
 Qed.
+
+(* ---- C11: resampling reads through the cache levels ---- *)
+Require Import BS.RangeFacts BS.RangeRead BS.ReadAllFacts.
+
+Lemma pick_level_mem : forall (t:list dsample) cur n lo hi d,
+  pick_level cur t n lo hi = Ok d -> d = cur \/ In d (map ds_data t).
+Proof.
+  induction t as [|ds t IH]; intros cur n lo hi d H; cbn [pick_level] in H.
+  - inversion H. left. reflexivity.
+  - destruct (ds_estimate ds lo hi) as [e|e| |]; cbn [bind] in H; try discriminate.
+    destruct e as [[mx mn]|]; [|inversion H; left; reflexivity].
+    destruct (mx <? n)%N; [inversion H; left; reflexivity|].
+    destruct (mn <? n)%N; [inversion H; left; reflexivity|].
+    destruct (IH _ _ _ _ _ H) as [->|IN]; right; cbn [map In]; auto.
+Qed.
+
+(* a cache level as a series of its own *)
+Definition as_series (d:data) (cb:cbmode) (cl:list line) : series :=
+  {| s_data := d; s_down := []; s_cb := cb; s_range := first_last cl |}.
+
+Lemma read_n_on_level (s:series) d n lo hi fs :
+  sorted_lens (s_down s) = Ok true -> pick_level (s_data s) (s_down s) n lo hi = Ok d ->
+  forall cl, read_n s n lo hi fs = read_n (as_series d (s_cb s) cl) n lo hi fs.
+Proof.
+  intros SL PL cl. unfold read_n. rewrite SL. cbn [as_series s_down sorted_lens s_data s_cb].
+  destruct (n =? 0)%N; [reflexivity|]. rewrite PL. cbn [pick_level]. reflexivity.
+Qed.
+
+Section ReadLevels.
+Variable p : nat.
+
+Definition levels (l:list line) (cs:list cspec) : list (list line) := l :: map (fun c => cache_of p (fst c) l) cs.
+
+Lemma cache_as_series fs ds c l cb : cache_ok p fs l ds c ->
+  exists chdr cihdr, RepH fs (as_series (ds_data ds) cb (cache_of p (fst c) l)) p chdr cihdr (cache_of p (fst c) l).
+Proof.
+  intros [Hb (k & done & pend & El & Ld & RC & _)].
+  assert (E : cache_of p (fst c) l = cache_of p (fst c) done).
+  { unfold cache_of. rewrite El, (buckets_app (fst c) Hb k done pend Ld), (buckets_short (fst c) pend) by (apply (rc_len _ _ _ _ _ _ _ _ RC)).
+    rewrite app_nil_r. reflexivity. }
+  rewrite E. exists (fst (snd c)), (snd (snd c)). constructor; cbn [as_series s_data s_down s_range].
+  - exact (rc_data _ _ _ _ _ _ _ _ RC).
+  - exact (rc_wf _ _ _ _ _ _ _ _ RC).
+  - reflexivity.
+  - reflexivity.
+Qed.
+
+(* whatever level the estimate loop settles on, the answer is the uniform resampling of that level's lines in the range *)
+Theorem read_n_levels fs s hdr ihdr l cs n lo hi d :
+  RepS fs s p hdr ihdr l cs -> (1 <= n)%N ->
+  sorted_lens (s_down s) = Ok true -> pick_level (s_data s) (s_down s) n lo hi = Ok d ->
+  exists lev, In lev (levels l cs)
+    /\ ((exists b, b >= 1 /\ read_n s n lo hi fs = (fs, Ok (resample p b (select lo hi lev)))
+                   /\ (len (resample p b (select lo hi lev)) <= 2 * n)%N)
+        \/ (select lo hi lev = [] /\ read_n s n lo hi fs = (fs, Err ERange))).
+Proof.
+  intros R Hn SL PL. destruct (pick_level_mem _ _ _ _ _ _ PL) as [->|IN].
+  - exists l. split; [left; reflexivity|].
+    rewrite (read_n_on_level s (s_data s) n lo hi fs SL PL l).
+    assert (RH : RepH fs (as_series (s_data s) (s_cb s) l) p hdr ihdr l).
+    { constructor; cbn [as_series s_data s_down s_range]; [exact (rs_data _ _ _ _ _ _ _ R)|exact (rs_wf _ _ _ _ _ _ _ R)|reflexivity|reflexivity]. }
+    apply (read_n_ok fs _ p hdr ihdr l RH n lo hi eq_refl Hn).
+  - apply in_map_iff in IN. destruct IN as (ds & Ed & INds).
+    pose proof (rs_caches _ _ _ _ _ _ _ R) as F2.
+    assert (EX : exists c, In c cs /\ cache_ok p fs l ds c).
+    { clear -F2 INds. induction F2 as [|d0 c0 t ct H0 F2 IH]; [contradiction|].
+      destruct INds as [->|IN]; [exists c0; split; [left; reflexivity|exact H0]|].
+      destruct (IH IN) as (c & Hc & OK). exists c. split; [right; exact Hc|exact OK]. }
+    destruct EX as (c & Hc & OK). exists (cache_of p (fst c) l). split.
+    { right. apply in_map_iff. exists c. split; [reflexivity|exact Hc]. }
+    destruct (cache_as_series fs ds c l (s_cb s) OK) as (chdr & cihdr & RH).
+    rewrite (read_n_on_level s d n lo hi fs SL PL (cache_of p (fst c) l)). rewrite <- Ed.
+    apply (read_n_ok fs _ p chdr cihdr _ RH n lo hi eq_refl Hn).
+Qed.
+End ReadLevels.
+
+(* the order check at the start of read_n passes when the bucket sizes were given in ascending order *)
+Section OrderCheck.
+Variable p : nat.
+
+Lemma cache_len_lines fs ds c l : cache_ok p fs l ds c ->
+  data_len_lines (ds_data ds) = Ok (N.of_nat (length l / fst c)).
+Proof.
+  intros OK. destruct (cache_as_series p fs ds c l CbNone OK) as (chdr & cihdr & RH).
+  pose proof (len_ok fs _ p chdr cihdr _ RH) as LO. cbn [as_series s_data] in LO. rewrite LO.
+  unfold len, cache_of. rewrite map_length, buckets_length by apply OK. reflexivity.
+Qed.
+
+Lemma sorted_lens_step a b t : sorted_lens (a :: b :: t)
+  = (do la <- data_len_lines (ds_data a); do lb <- data_len_lines (ds_data b);
+     if (lb <=? la)%N then sorted_lens (b :: t) else Ok false).
+Proof. reflexivity. Qed.
+
+Lemma sorted_lens_ok fs l : forall down cs, Forall2 (cache_ok p fs l) down cs -> StronglySorted le (map fst cs) ->
+  sorted_lens down = Ok true.
+Proof.
+  intros down cs F2. induction F2 as [|ds c t ct OK F2 IH]; intros SS; [reflexivity|].
+  cbn [map] in SS. inversion SS as [|? ? St Hall]; subst.
+  destruct F2 as [|ds2 c2 t2 ct2 OK2 F2']; [reflexivity|].
+  rewrite sorted_lens_step, (cache_len_lines fs ds c l OK), (cache_len_lines fs ds2 c2 l OK2). cbn [bind].
+  assert (LE : fst c <= fst c2) by (cbn [map] in Hall; inversion Hall; assumption).
+  replace (N.of_nat (length l / fst c2) <=? N.of_nat (length l / fst c))%N with true.
+  - apply IH. exact St.
+  - symmetry. apply N.leb_le. assert (length l / fst c2 <= length l / fst c) by (apply Nat.div_le_compat_l; destruct OK as [Hb _]; lia). lia.
+Qed.
+End OrderCheck.
